@@ -478,6 +478,26 @@ def c18_add(tier, seed):
         if got.to_text() != direct.to_text() or got.default_prios != direct.default_prios \
                 or got.ge_polyhedron.tolist() != direct.ge_polyhedron.tolist():
             _viol(r, "c18.structure-differs", w, got=got.to_text(), want=direct.to_text())
+    # bare ITEMS directly under the configurator, with boolean and non-boolean bounds, next to the rules
+    for b in ((0, 1), (0, 3), (-1, 2), (1, 1), (2, 5)):
+        mk = lambda: [puan.variable("n", b), pg.Any("a", "b", variable="R")]
+        new = lambda: pg.AtMost(1, ["b", "c"], variable="N")
+        base_cfg = cc.StingyConfigurator(*mk(), id="items")
+        direct = cc.StingyConfigurator(*mk(), new(), id="items")
+        if direct.errors() != []:
+            continue
+        r["evaluations"] += 1
+        r["_seen"].add(("top-level-item", b))
+        w = {"base": base_cfg.to_json(), "added": new().to_json()}
+        try:
+            got = base_cfg.add(new())
+        except Exception as e:
+            _viol(r, "c18.add-refuses-rule-that-direct-construction-accepts", w, error=repr(e)[:200])
+            continue
+        pb = lambda m: [(str(v.id), tuple(int(t) for t in v.bounds.as_tuple())) for v in m.ge_polyhedron.variables]
+        if got.to_text() != direct.to_text() or got.to_json() != direct.to_json() or pb(got) != pb(direct) \
+                or got.ge_polyhedron.tolist() != direct.ge_polyhedron.tolist():
+            _viol(r, "c18.structure-differs", w, got=got.to_text(), want=direct.to_text(), bounds_got=pb(got), bounds_want=pb(direct))
     return _finish(r)
 
 
